@@ -45,14 +45,21 @@ type hbWorld struct {
 	idx int
 }
 
-func newHBWorld(timeout time.Duration) *hbWorld {
+func newHBWorld(timeout time.Duration, attach bool) *hbWorld {
 	spine.VerifResetGlobals()
 	h := &hbWorld{}
 	h.L = spine.NewDeviceLocal("brand", "model", "serial", "code", world.LocalAddr, model.DeviceTypeTypeEnergyManagementSystem, model.NetworkManagementFeatureSetTypeSmart)
 	h.e = spine.NewEntityLocal(h.L, model.EntityTypeTypeCEM, spine.NewAddressEntityType([]uint{1}), timeout)
-	h.L.AddEntity(h.e)
+	if attach {
+		h.L.AddEntity(h.e)
+	}
 	h.f = h.e.GetOrAddFeature(model.FeatureTypeTypeDeviceDiagnosis, model.RoleTypeServer)
 	h.hm = h.e.HeartbeatManager()
+	if !attach {
+		// an entity that was created for the device but never added to it: nobody can subscribe,
+		// the stream is observed through IsHeartbeatRunning and the live ticker loop only
+		return h
+	}
 	// peer A subscribed to the device-diagnosis server
 	w := &hbWriter{}
 	w.Name = "A"
@@ -99,7 +106,12 @@ func c16Scenario(timeout time.Duration, pre []string, threads [][]string) *engin
 		var finalCounter uint64
 		var blockedSel int
 		res := rt.Execute(cfg, func() {
-			h := newHBWorld(timeout)
+			attach := true
+			pre := pre
+			if len(pre) > 0 && pre[0] == "Detached" {
+				attach, pre = false, pre[1:]
+			}
+			h := newHBWorld(timeout, attach)
 			for i, op := range pre {
 				h.do(fmt.Sprintf("p.%d", i), op)
 			}
@@ -264,6 +276,50 @@ func c16Scenarios(thorough bool) []*engine.SScenario {
 	single := [][]string{{"Add", "Stop"}, {"Add", "Stop", "Start"}, {"Start"}, {"Add", "Remove"}, {"Add", "Start"}, {"Add", "Stop", "Stop"}, {"Stop"}, {"Add", "Start", "Stop"}, {"Add", "IsRunning", "Stop"}}
 	for _, s := range single {
 		scs = append(scs, c16Scenario(t4, nil, [][]string{s}))
+	}
+	// every sequential history of start, stop and entity removal after the automatic start (stopping
+	// must work from every state such a history reaches, e.g. for an entity that was removed before)
+	var hist [][]string
+	hl := 3
+	if thorough {
+		hl = 4
+	}
+	var gen func(cur []string)
+	gen = func(cur []string) {
+		starts := 0
+		for _, a := range cur {
+			if a == "Start" {
+				starts++
+			}
+		}
+		// the ticker of a stopped stream is never stopped by the library, so every further start adds
+		// a ticker thread whose ticks interleave with everything: histories are limited to one restart
+		if starts > 1 {
+			return
+		}
+		if len(cur) >= 2 {
+			hist = append(hist, append([]string{}, cur...))
+		}
+		if len(cur) == hl {
+			return
+		}
+		for _, a := range []string{"Start", "Stop", "Remove"} {
+			gen(append(cur, a))
+		}
+	}
+	gen(nil)
+	// (state coverage: in these the ticks are delivered in time order whenever the caller is parked,
+	// not at every scheduling point — the tick-versus-call races are the subject of the scenarios above and below)
+	quiet := func(sc *engine.SScenario) *engine.SScenario {
+		sc.TimersFree = false
+		sc.Name += " (ticks in time order)"
+		return sc
+	}
+	for _, s := range hist {
+		scs = append(scs, quiet(c16Scenario(t4, []string{"Add"}, [][]string{s})))
+	}
+	for _, s := range [][]string{{"Remove"}, {"Stop"}, {"Remove", "Start", "Remove"}, {"Stop", "Start", "Remove"}} {
+		scs = append(scs, quiet(c16Scenario(t4, []string{"Detached", "Add"}, [][]string{s})))
 	}
 	pairs := [][][]string{{{"Stop"}, {"Stop"}}, {{"Start"}, {"Start"}}, {{"Start"}, {"Stop"}}, {{"Stop"}, {"IsRunning"}}, {{"Remove"}, {"Start"}}, {{"Stop", "Start"}, {"Stop"}}, {{"Start"}, {"IsRunning"}}}
 	if thorough {
